@@ -145,7 +145,9 @@ def check_case(case, ctx):
 def run(spec, ctx):
     for i in range(spec['n']):
         rng = random.Random(f'C04/{spec["seed"]}/{spec["shard"]}/{i}')
-        case = WC.gen_case(rng, multi=True if i % 3 else None)
+        case = WC.gen_case(rng, multi=True if i % 3 else None, large=(i == 1))
+        if i == 1:
+            ctx.count('large_cases')
         case['c_reuse'] = (i % 5 == 4)
         case['epochs'] = 2 if i % 3 == 2 else 1
         if i % 4 == 0:
